@@ -97,15 +97,29 @@ Collisions(L) ==
            ELSE <<>>
   IN Concat([a \in 1..n |-> Concat([b \in 1..(n - a) |-> pair(a, a + b)])])
 
+\* the same text for the same value in another layout gets the same verdict
+\* (a text without structure is identical in all layouts; if it contains no
+\* LINE FEED the white-space class makes no difference)
+SameAsPrevious(L, j) ==
+  /\ j > 1
+  /\ LET o == L.obs[j]  q == L.obs[j - 1] IN
+       /\ Has(o, "enc") /\ Has(q, "enc") /\ o.enc.st = "ok" /\ q.enc.st = "ok"
+       /\ o.vi = q.vi /\ o.ne = q.ne
+       /\ Len(o.enc.t) = Len(q.enc.t) /\ o.enc.t = q.enc.t
+       /\ \A k \in 1..Len(o.enc.t) : o.enc.t[k] # 10
+
 LineReport(L) ==
-  LET per == [j \in 1..Len(L.obs) |->
-                LET o == L.obs[j]  r == ObsVerdict(L, o)
-                IN [vi |-> o.vi, codec |-> o.codec, ne |-> o.ne, ind |-> o.ind,
-                    check |-> r.check, verdict |-> r.verdict, detail |-> r.detail]]
+  LET one(acc, j) ==
+        LET o == L.obs[j] IN
+        IF SameAsPrevious(L, j) THEN Append(acc, [acc[j - 1] EXCEPT !.ind = o.ind])
+        ELSE LET r == ObsVerdict(L, o)
+             IN Append(acc, [vi |-> o.vi, codec |-> o.codec, ne |-> o.ne, ind |-> o.ind,
+                             check |-> r.check, verdict |-> r.verdict, detail |-> r.detail])
+      per == FoldLeft(one, <<>>, [j \in 1..Len(L.obs) |-> j])
       col == Collisions(L)
       inj == IF col = <<>> THEN << [vi |-> 0, codec |-> "gser", ne |-> FALSE, ind |-> -1, check |-> "INJ", verdict |-> "ok", detail |-> ""] >>
              ELSE col
-      all == Force(per) \o inj
+      all == per \o inj
   IN [cid |-> L.cid, n |-> Len(all),
       ok |-> Len(SelectSeq(all, LAMBDA r : r.verdict = "ok")),
       other |-> SelectSeq(all, LAMBDA r : r.verdict # "ok")]
